@@ -341,7 +341,22 @@ def fn_compiled_maps(items):
                         g1, p1 = ref.map_apply(bg, bp, fg, fp)
                         if (g1 != I).any() or p1.any():
                             viol.append(V('C04/lazy-inverse/%s/maps-not-inverse/%s-first' % (tag, first), item, 'gate %s: after running it (%s first) forward_map and backward_map are not inverse to each other' % (l.name, first)))
-            objs = [('circuit', c)] + [('layer%d' % k, lay) for k, lay in enumerate(itertools.islice(c.layers_forward(), 8))] + [('gate%d' % k, g) for k, g in enumerate(gates)]
+            variants = [('', c, gates)]
+            for k in range(len(letters)):          # history: compile a prefix, take the rest (gates may sink into compiled layers), compile again
+                try:
+                    c2, g2 = circ.build(pk, cls, N, letters[:k])
+                    pk.compile(c2, N)
+                    for l in letters[k:]:
+                        gg = l.mk(pk)
+                        c2.take(gg)
+                        g2.append(gg)
+                    pk.compile(c2, N)
+                    variants.append(('/compile-extend-compile', c2, g2))
+                except Exception as e:
+                    viol.append(V('C04/compiled-maps/%s/compile-extend-compile/raises-%s' % (tag, type(e).__name__), item, 'compile, extend, compile of %s raised %s: %s' % ([l.name for l in letters], type(e).__name__, e)))
+            objs = []
+            for vtag, cv, gv in variants:
+                objs += [('circuit' + vtag, cv)] + [('layer%d%s' % (k, vtag), lay) for k, lay in enumerate(itertools.islice(cv.layers_forward(), 8))] + [('gate%d%s' % (k, vtag), g) for k, g in enumerate(gv)]
             for nm, o in objs:
                 if getattr(o, 'forward_map', None) is None or getattr(o, 'backward_map', None) is None:
                     continue
@@ -357,10 +372,10 @@ def fn_compiled_maps(items):
                     g2, p2 = ref.map_apply(fg, fp, bg, bp)
                     ok = (g1 == I).all() and (g2 == I).all() and not p1.any() and not p2.any()
                 if not ok:
-                    viol.append(V('C04/compiled-maps/%s/%s/backward-not-inverse-of-forward' % (tag, nm.rstrip('0123456789')), item,
+                    viol.append(V('C04/compiled-maps/%s/%s/backward-not-inverse-of-forward' % (tag, ''.join(ch for ch in nm if not ch.isdigit())), item,
                                   'program %s, %s of %s: compiled backward_map is not the two-sided inverse of forward_map' % ([l.name for l in letters], nm, cls)))
-                elif nm == 'circuit' and ((fg != et).any() or (fp != es % 4).any()):
-                    viol.append(V('C04/compiled-maps/%s/circuit/forward-not-composition' % tag, item, 'program %s: compiled forward_map of %s is not the composition of the gate maps in order' % ([l.name for l in letters], cls)))
+                elif nm.startswith('circuit') and ((fg != et).any() or (fp != es % 4).any()):
+                    viol.append(V('C04/compiled-maps/%s/%s/forward-not-composition' % (tag, nm), item, 'program %s: compiled forward_map of %s (%s) is not the composition of the gate maps in order' % ([l.name for l in letters], cls, nm)))
     return {'n': n, 'nt': nt, 'viol': viol}
 
 
